@@ -423,7 +423,11 @@ def main(argv=None):
         print(line)
     if harness_errors:
         for he in harness_errors[:3]:
-            print("HARNESS-ERROR", json.dumps(he, default=repr)[:3000])
+            print("HARNESS-ERROR", str(he.get("error"))[-1800:].replace("\n", " | "))
+            if he.get("case") is not None:
+                os.makedirs(os.path.join(VERIF, "out"), exist_ok=True)
+                with open(os.path.join(VERIF, "out", f"harness_error_{pid}.json"), "w") as fh:
+                    json.dump({"property": pid, "case": he["case"], "error": he.get("error")}, fh, indent=1, default=repr)
         print(f"HARNESS-ERROR count={len(harness_errors)} (exit 2, no verdict)")
         return 2
     if cases and rejected / cases > 0.2:
